@@ -97,6 +97,10 @@ def gen_materials(rng, n_bands, kind=None):
         a = rng.uniform(0.0, 1.0, size=(6, n_bands))
         a[rng.integers(0, 6)] = 1.0
         a[rng.integers(0, 6)] = 0.0
+        if n_bands > 1:
+            # fully absorbing / rigid in ONE band only (e.g. the first), ordinary in the others
+            a[rng.integers(0, 6), int(rng.choice([0, 0, n_bands - 1]))] = 1.0
+            a[rng.integers(0, 6), int(rng.integers(0, n_bands))] = 0.0
     return a, str(kind)
 
 
